@@ -395,6 +395,62 @@ def run_echo_sequence(ctx, seq, hook):
     port.closed = True
 
 
+def helper_cases(ctx, hook):
+    """reset() / panic() / multi_send / multi_iter_pending / multi_receive."""
+    from mido.ports import multi_iter_pending, multi_receive, multi_send
+    n = 0
+    for closed in (False, True):
+        log = []
+        p = RecordingPort('r', log=log)
+        if closed:
+            p.close()
+        case = {'kind': 'helpers', 'closed': closed}
+        hook.arm({}, None, None)
+        try:
+            p.reset()
+            p.panic()
+            sends = [tag_of(e[2]) for e in log if e[1] == '_send']
+            want = [] if closed else [('reset',) + r for r in RESETS] + [('reset', ch, 120) for ch in range(16)]
+            ctx.check('results == lifecycle model', sends == want, 'helpers:reset-panic', case,
+                      lambda: {'got': sends[:6], 'n': len(sends)})
+        except Exception as exc:
+            ctx.fail('results == lifecycle model', f'helpers:{type(exc).__name__}', case, repr(exc))
+        p.closed = True
+        n += 1
+    a, b, c = EchoPort('a'), EchoPort('b'), EchoPort('c')
+    c.close()
+    case = {'kind': 'helpers', 'what': 'multi_*'}
+    try:
+        multi_send([a, b], out_msg(1))
+        ctx.check('results == lifecycle model', [tag_of(m) for m in a._messages] == [('o', 1)]
+                  and [tag_of(m) for m in b._messages] == [('o', 1)], 'helpers:multi_send', case, None)
+        hook.arm({}, None, None)
+        got = sorted(tag_of(m) for m in multi_iter_pending([a, b, c]))
+        ctx.check('results == lifecycle model', got == [('o', 1), ('o', 1)] and hook.n == 0,
+                  'helpers:multi_iter_pending', case, got)
+        a.send(out_msg(2))
+        got = list(multi_receive([a, b, c], yield_ports=True, block=False))
+        ctx.check('results == lifecycle model', len(got) == 1 and got[0][0] is a and tag_of(got[0][1]) == ('o', 2)
+                  and hook.n == 0, 'helpers:multi_receive-yield_ports', case, repr(got)[:100])
+        # blocking multi_receive: a generator that yields as messages arrive
+        hook.arm({2: 'arrive'}, lambda: b.send(out_msg(3)), None)
+        g = multi_receive([a, b, c], block=True)
+        m = next(g)
+        ctx.check('blocking call bounded sleeps', tag_of(m) == ('o', 3) and hook.n <= 4, 'helpers:multi_receive-blocking',
+                  case, {'sleeps': hook.n})
+        g.close()
+        mp = MultiPort([a, b], yield_ports=True)
+        a.send(out_msg(4))
+        r = mp.receive()
+        ctx.check('results == lifecycle model', isinstance(r, tuple) and r[0] is a and tag_of(r[1]) == ('o', 4),
+                  'helpers:multiport-yield_ports', case, repr(r)[:100])
+    except HarnessAbort as exc:
+        ctx.check('blocking call bounded sleeps', False, 'helpers:blocked', case, str(exc))
+    except Exception as exc:
+        ctx.fail('results == lifecycle model', f'helpers:{type(exc).__name__}', case, repr(exc))
+    return n + 1
+
+
 def multiport_cases(ctx, hook):
     n = 0
     for nmem in (0, 1, 2, 3):
@@ -639,6 +695,9 @@ def run(ctx):
             ctx.nontrivial(None, k)
             ctx.extra('multiport_cases', k)
             n += k
+            k = helper_cases(ctx, hook)
+            ctx.nontrivial(None, k)
+            n += k
     finally:
         mido.ports.sleep = orig
     n += concurrency_part(ctx, ctx.tier, lambda j: j % ctx.nshards == ctx.shard)
@@ -659,6 +718,8 @@ def replay(ctx, case):
             run_echo_sequence(ctx, tuple(case['ops']), hook)
         elif k == 'multi':
             multiport_cases(ctx, hook)
+        elif k == 'helpers':
+            helper_cases(ctx, hook)
     finally:
         mido.ports.sleep = orig
     if case['kind'] == 'sched':
